@@ -45,9 +45,11 @@ package app
 //@   trusted
 //@   ensures result == normHostF(host)
 
+// the remote address a route's remote_ip prefixes are matched against is always the unmapped form (::ffff:10.1.2.3
+// is matched as 10.1.2.3), whichever shape net/http hands over
 //@ func parseRemoteAddrIP
-//@   trusted
-//@   ensures result0 == remoteIPOf(remoteAddr) && result1 == remoteIPOKF(remoteAddr)
+//@   ensures [C10:the_remote_ip_is_matched_in_its_unmapped_form] result1 ==> exists a netip.Addr :: result0 == ext("net/netip.(Addr).Unmap", a)
+//@   assumes [deterministic] result0 == remoteIPOf(remoteAddr) && result1 == remoteIPOKF(remoteAddr)
 
 //@ func matchHeaderValues
 //@   loop 1 invariant [none_before] forall j int :: 0 <= j && j <= rangeindex ==> !headerValueMatches(values[j], expected)
@@ -96,6 +98,7 @@ package app
 //@   ensures [C18:failed_load_enters_no_write_section] result != nil ==> writeSections == old(writeSections)
 //@   ensures [C18:successful_load_is_one_write_section] result == nil ==> writeSections == old(writeSections) + 1
 //@   ensures [recorded] loadOK == (result == nil)
+//@   calls InheritReplayState requires [C09:replay_state_is_inherited_inside_the_write_section_that_publishes_the_authenticator] heldW()
 //@   calls InheritReplayState requires [C09:replay_state_kept] heldW() && arg1 == s.hmacByRoute[route] && arg0 == hmacByRoute[route]
 
 // ---- C11: which allowlist is consulted ----
